@@ -1,2 +1,137 @@
-def run_other(scratch, ob, mods):
-    raise RuntimeError("engine %s not implemented" % ob["engine"])
+"""Engines other than Kani: Verus on mechanically extracted units (/verif/verus/*.vrs)."""
+import re, subprocess, time, os, json
+from pathlib import Path
+import vpextract
+from vplib import VERIF, REPO
+
+
+def load_verus_units():
+    """Obligations declared by //@ob lines in /verif/verus/*.vrs, in the same dict shape as Kani obligations."""
+    obs = []
+    vdir = VERIF / "verus"
+    if not vdir.exists():
+        return obs
+    for f in sorted(vdir.glob("*.vrs")):
+        unit, uobs, _ = vpextract.parse_template(f.read_text())
+        for kv in uobs:
+            o = dict(kv)
+            o["props"] = o["props"].split(",")
+            o.setdefault("tier", "quick")
+            o.setdefault("kind", "contract")
+            o["solver"] = "z3(verus)"
+            o.setdefault("timeout", "600")
+            o["cfg"] = "extracted"
+            o["engine"] = "verus"
+            o["crate"] = unit.get("crate", f.stem)
+            o["unit"] = f
+            o["id"] = f"{o['crate']}.verus.{o['name']}"
+            class _M:  # minimal stand-in for Module (assumption scan reads .path)
+                pass
+            m = _M(); m.path = f; m.crate = o["crate"]; m.configs = {}
+            o["module"] = m
+            obs.append(o)
+    return obs
+
+
+def fn_ranges(text):
+    """(name, first_line, last_line) for every fn item in a Verus file (brace matched on a comment-stripped mask)."""
+    mask = vpextract.strip_comments_mask(text)
+    out = []
+    for m in re.finditer(r"\bfn\s+(\w+)", mask):
+        # body: first '{' at depth 0 after the signature's parameter list
+        i = mask.find("(", m.end())
+        if i < 0:
+            continue
+        try:
+            j = vpextract.match_brace(mask, i, "(", ")")
+        except Exception:
+            continue
+        k, depth, ob = j + 1, 0, -1
+        while k < len(mask):
+            ch = mask[k]
+            if ch in "([":
+                depth += 1
+            elif ch in ")]":
+                depth -= 1
+            elif ch == "{" and depth == 0:
+                # could be the `({ ... })` of an ensures clause: those are inside parens, depth > 0, so this is the body
+                ob = k
+                break
+            elif ch == ";" and depth == 0:
+                break
+            k += 1
+        if ob < 0:
+            continue
+        try:
+            cb = vpextract.match_brace(mask, ob)
+        except Exception:
+            continue
+        out.append((m.group(1), text[:m.start()].count("\n") + 1, text[:cb].count("\n") + 1))
+    return out
+
+
+def run_verus_unit(scratch, unit_path, obs):
+    t0 = time.time()
+    results = {}
+    gen = scratch.root / f"{Path(unit_path).stem}_verus.rs"
+    try:
+        text, unit, _, log, fns, _ = vpextract.generate(REPO, unit_path)
+    except vpextract.ExtractError as e:
+        for o in obs:
+            results[o["id"]] = dict(status="error", checks=0, failed=0, covers=None, failed_checks=[], time=None, raw="extraction failed (undecided): " + str(e))
+        return results, time.time() - t0, "vpextract " + str(unit_path), str(e)
+    gen.write_text(text)
+    (scratch.root / f"{Path(unit_path).stem}.extract.log").write_text("\n".join(log))
+    timeout = max(int(o["timeout"]) for o in obs)
+    cmd = ["verus", str(gen), "--time", "--multiple-errors", "20"]
+    try:
+        p = subprocess.run(cmd, text=True, capture_output=True, timeout=timeout, cwd=scratch.root)
+        out = p.stdout + "\n" + p.stderr
+    except subprocess.TimeoutExpired:
+        out = "verus timed out"
+    wall = time.time() - t0
+    ranges = fn_ranges(text)
+    m = re.search(r"verification results:: (\d+) verified, (\d+) errors", out)
+    compile_err = re.search(r"^error\[E\d+\]", out, re.M) or (m is None)
+    # map each error to the fn item containing its primary span
+    failed = {}
+    blocks = re.split(r"\n(?=error)", out)
+    for b in blocks:
+        if not b.startswith("error"):
+            continue
+        lm = re.search(r"--> [^\n:]*:(\d+):\d+", b)
+        if not lm:
+            continue
+        ln = int(lm.group(1))
+        owner = None
+        for (name, a, z) in ranges:
+            if a <= ln <= z and (owner is None or a >= owner[1]):
+                owner = (name, a, z)
+        if owner:
+            failed.setdefault(owner[0], []).append(b.strip()[:1500])
+    total_time = None
+    tm = re.search(r"total-time:\s+(\d+) ms", out) or re.search(r"Total time.*?(\d+)\s*ms", out)
+    names_in_file = {r[0] for r in ranges}
+    for o in obs:
+        r = dict(status="unknown", checks=0, failed=0, covers=None, failed_checks=[], time=round(wall, 1), raw="")
+        if o["name"] not in names_in_file:
+            r.update(status="error", raw=f"lost anchor: no fn {o['name']} in generated unit")
+        elif compile_err:
+            errs = "\n".join(x for x in out.split("\n") if x.startswith("error"))[:1500]
+            r.update(status="error", raw="verus could not process the extracted unit (undecided, not a violation): " + (errs or out[-1500:]))
+            if "rlimit" in out.lower() or "timed out" in out:
+                r["status"] = "timeout"
+        elif o["name"] in failed:
+            msgs = failed[o["name"]]
+            if all("rlimit" in x.lower() or "resource limit" in x.lower() for x in msgs):
+                r.update(status="timeout", raw="\n".join(msgs))
+            else:
+                r.update(status="failed", checks=1, failed=len(msgs),
+                         failed_checks=[(re.sub(r"\s+", " ", x.split("\n")[0]), str(gen.name), re.search(r":(\d+):", x).group(1) if re.search(r":(\d+):", x) else "0") for x in msgs],
+                         raw="\n\n".join(msgs))
+        else:
+            r.update(status="success", checks=1)
+        r["verus_summary"] = m.group(0) if m else None
+        r["extraction"] = dict(log=log, functions=fns)
+        results[o["id"]] = r
+    return results, wall, " ".join(cmd), out
